@@ -25,11 +25,17 @@ EXHAUSTIVE_NOTE = "all 4 one-variable and 256 two-variable networks (thorough: p
 ASSUMPTIONS = ["'max' is only asked with >=1 free variable in the ensure space and non-empty avoid spaces (as the property states)"]
 
 
+NASTY_NAMES = ["b1_x", "xb0_", "ab1_c", "b0_b1_", "tr_a_up_1", "b1", "B0_", "_", "x_b1_y", "k0"]
+
+
 @st.composite
 def _case(draw, max_n):
     nj = draw(gen.networks(max_n=max_n, core_weight=1))
     n = len(nj["names"])
     kind = draw(st.sampled_from(("trappist", "trappist", "rstg", "rpn")))
+    if draw(st.integers(0, 3)) == 0:
+        # names that contain the Petri-net place prefixes, underscores, digits first, mixed case
+        nj = {**nj, "names": list(draw(st.permutations(NASTY_NAMES))[:n])}
     case = {"net": nj, "kind": kind}
     has_free = any(t is None for t in nj["tables"])
     case["form"] = draw(st.sampled_from(("api", "pn") if has_free else ("bnet", "api", "pn")))
